@@ -1,5 +1,25 @@
 """C06 - HTJ2K lossless (.201/.202): exact round trip and exact decode of the 14 third-party fixtures."""
+import os
+import vlib
 from checks import rtcommon
+
+
+def mel_side(ctx, wd, drv):
+    """MEL coder of the HT cleanup pass: model-checked (MC_Mel) and bound to htj2k.MELEncoder/MELDecoder (informational)."""
+    ctx.mc("MC_Mel", "MC_Mel_q.cfg" if ctx.quick else "MC_Mel_t.cfg", timeout=3000 if ctx.quick else 14400)
+    trace = os.path.join(wd, "mel.ndjson")
+    vlib.run_driver(drv, ["mel", "--out", trace, "--seed", str(ctx.seed), "--n", "400" if ctx.quick else "4000", "--maxdim", "120"], env=ctx.env())
+    shards = vlib.shard_trace(trace, wd, vlib.NCPU, prefix="mel")
+    v = vlib.validate(wd, "MelTrace", shards, timeout=3000)
+    c = {"agree": 0, "enc": 0, "dec": 0}
+    for i in v["infos"]:
+        if i.startswith("mel "):
+            for kv in i.split()[1:]:
+                k, val = kv.split("=")
+                c[k] += int(val)
+    return {"mel_coder": {"strings_agreeing": c["agree"], "library_bytes_not_decodable_by_reference": c["enc"],
+                          "library_decoder_differs": c["dec"],
+                          "samples": [i for i in v["infos"] if i.startswith("MEL ")][:3]}}
 
 
 def run(ctx):
@@ -13,4 +33,7 @@ def run(ctx):
              "0..6; 12 content classes; plus every lossless codestream listed in test-data/htj2k/interop/manifest.json (14 OpenJPH / "
              "fo-dicom streams, default and RPCL progression) decoded through the registered codec of its progression and compared "
              "with the fixture's input.raw byte for byte (event fixdec; the 888x459 16-bit pair by SHA-256). distinct_nontrivial = distinct (syntax, BA, BS, SPP, signed, block size, levels, class)",
-        assumptions=["frames above 128 KiB in total are compared by SHA-256 computed in the harness"])
+        assumptions=["frames above 128 KiB in total are compared by SHA-256 computed in the harness",
+                     "mel_coder (spec/Mel.tla, MC_Mel, MelTrace) is an informational companion: the MEL run-length coder of the HT "
+                     "cleanup pass is model-checked and bound to htj2k.MELEncoder / MELDecoder; C06 itself is decided on images"],
+        side=mel_side)
